@@ -71,14 +71,24 @@ NWORKERS = 16
 # ---------------------------------------------------------------- scenarios
 
 SETUP_ARGS = ['-Dalpha=a1', '-Dbeta=y']
+NATIVE = ['--native-file', os.path.join(CRASHSITE, 'native.ini')]
+CROSS = ['--cross-file', os.path.join(CRASHSITE, 'cross.ini')]
+# option values come from three sources in the machine-file histories: the command line (alpha, beta), the machine
+# file (werror, default_library, gamma; its alpha is overridden by -D) and project default_options (optimization)
 HIST: T.Dict[str, T.List[T.Tuple[str, T.List[str]]]] = {
     'fresh': [],
+    'freshn': [],
+    'freshx': [],
     'h1': [('setup', SETUP_ARGS)],
     'h2': [('setup', SETUP_ARGS), ('configure', ['-Dgamma=true'])],
     'h3': [('setup', SETUP_ARGS), ('configure', ['-Dgamma=true']), ('reconfigure', ['-Dalpha=a3'])],
+    'n1': [('setup', SETUP_ARGS + NATIVE)],
+    'n2': [('setup', SETUP_ARGS + NATIVE), ('configure', ['-Dwarning_level=2'])],
+    'x1': [('setup', SETUP_ARGS + CROSS)],
 }
+SETUP_FLAVOUR = {'fresh': SETUP_ARGS, 'freshn': SETUP_ARGS + NATIVE, 'freshx': SETUP_ARGS + CROSS}
+MACHINE_FILE_HISTS = {'freshn', 'freshx', 'n1', 'n2', 'x1'}
 CMD_ARGS = {
-    'setup': SETUP_ARGS,
     'reconfigure': ['-Dbeta=z', '-Dalpha=a7'],
     'wipe': [],
     'configure': ['-Dbeta=z', '-Dalpha=a7'],
@@ -99,11 +109,24 @@ class Scn(T.NamedTuple):
     def lean_name(self) -> str:
         return f'sc_{self.cmd}_{self.hist}_{self.backend}'
 
+    @property
+    def args(self) -> T.List[str]:
+        return SETUP_FLAVOUR[self.hist] if self.cmd == 'setup' else CMD_ARGS[self.cmd]
+
+    @property
+    def mf(self) -> bool:
+        """the directory is (being) configured with a machine file"""
+        return self.hist in MACHINE_FILE_HISTS
+
 
 ALL_SCENARIOS = [Scn('setup', 'fresh', b) for b in BACKENDS] + \
-    [Scn(c, h, b) for c in ('reconfigure', 'wipe', 'configure') for h in ('h1', 'h2', 'h3') for b in BACKENDS]
-QUICK_SCENARIOS = [Scn('setup', 'fresh', 'ninja'), Scn('reconfigure', 'h2', 'none'), Scn('wipe', 'h3', 'ninja'),
-                   Scn('configure', 'h2', 'ninja')]
+    [Scn(c, h, b) for c in ('reconfigure', 'wipe', 'configure') for h in ('h1', 'h2', 'h3') for b in BACKENDS] + \
+    [Scn('setup', 'freshn', 'ninja'), Scn('setup', 'freshx', 'none'),
+     Scn('reconfigure', 'n1', 'none'), Scn('reconfigure', 'n2', 'ninja'), Scn('reconfigure', 'x1', 'none'),
+     Scn('wipe', 'n1', 'ninja'), Scn('wipe', 'n2', 'none'), Scn('wipe', 'x1', 'ninja'),
+     Scn('configure', 'n1', 'ninja'), Scn('configure', 'n2', 'none'), Scn('configure', 'x1', 'none')]
+QUICK_SCENARIOS = [Scn('setup', 'freshn', 'ninja'), Scn('reconfigure', 'h2', 'none'), Scn('wipe', 'n2', 'none'),
+                   Scn('configure', 'x1', 'none'), Scn('configure', 'n2', 'none'), Scn('reconfigure', 'n2', 'ninja')]
 
 
 def meson_argv(cmd: str, args: T.List[str], bd: str, backend: str) -> T.List[str]:
@@ -157,10 +180,11 @@ FIXED_IDS = {
     'build.ninja': 5,
     'build.ninja~': 6,
     'meson-private': 7,
+    'meson-private/cmd_line.txt~': 8,
 }
 STATE_FILES = ['meson-private/coredata.dat', 'meson-private/cmd_line.txt', 'meson-private/coredata.dat~',
                'meson-private/coredata.dat.prev', 'meson-private/build.dat', 'build.ninja', 'build.ninja~',
-               'meson-private']
+               'meson-private', 'meson-private/cmd_line.txt~']
 COMPARED = [0, 1, 3, 4, 5, 7]     # ids whose observed state is compared with the model
 INPLACE_CRITICAL = {'meson-private/cmd_line.txt', 'meson-private/build.dat'}
 KIND_CODE = {'open_w': 'ow', 'open_a': 'oa', 'write': 'w', 'flush': 'fl', 'fsync': 'fs', 'close': 'cl',
@@ -343,7 +367,7 @@ def observe(bd: str) -> T.Dict[str, str]:
         elif rel.startswith('meson-private/coredata.dat'):
             v = coredata_values(p)
             out[rel] = 't' if v is None else 'o:' + sig(v)
-        elif rel == 'meson-private/cmd_line.txt':
+        elif rel.startswith('meson-private/cmd_line.txt'):
             d = cmdline_dict(p)
             out[rel] = 't' if d is None else 'o:' + sig(d)
         elif rel == 'meson-private/build.dat':
@@ -455,15 +479,26 @@ def record(slot: Slot, sc: Scn) -> dict:
     pre_obs = observe(slot.bd)
     pre_vals = coredata_values(os.path.join(slot.bd, 'meson-private', 'coredata.dat')) or {}
     older_vals = coredata_values(os.path.join(slot.bd, 'meson-private', 'coredata.dat.prev'))
+    pre_cl = cmdline_dict(os.path.join(slot.bd, 'meson-private', 'cmd_line.txt')) \
+        if os.path.exists(os.path.join(slot.bd, 'meson-private', 'cmd_line.txt')) else None
     if os.path.exists(slot.log):
         os.unlink(slot.log)
-    rc, out = run_proc(meson_argv(sc.cmd, CMD_ARGS[sc.cmd], slot.bd, sc.backend),
+    rc, out = run_proc(meson_argv(sc.cmd, sc.args, slot.bd, sc.backend),
                        meson_env(slot.tmp, slot.bd, slot.log))
     raw = parse_log(slot.log)
     post_obs = observe(slot.bd)
     post_vals = coredata_values(os.path.join(slot.bd, 'meson-private', 'coredata.dat')) or {}
+    nomf_vals = None
+    if sc.mf and sc.cmd != 'setup' and pre_cl is not None:
+        # what a first-time setup with only the -D options stored in the old cmd_line.txt (no machine file) yields
+        common.rmtree(slot.bd)
+        m = [sys.executable, os.path.join(common.REPO, 'meson.py'), 'setup'] + \
+            [f'-D{k}={v}' for k, v in pre_cl['options'].items()] + [slot.bd, PROJ]
+        rc2, _out2 = run_proc(m, meson_env(slot.tmp))
+        if rc2 == 0:
+            nomf_vals = coredata_values(os.path.join(slot.bd, 'meson-private', 'coredata.dat'))
     slot.clean_tmp()
-    return {'scn': sc, 'rc': rc, 'out': out[-800:], 'raw': raw, 'pre_list': pre_list, 'pre_obs': pre_obs,
+    return {'scn': sc, 'rc': rc, 'nomf_vals': nomf_vals, 'out': out[-800:], 'raw': raw, 'pre_list': pre_list, 'pre_obs': pre_obs,
             'post_obs': post_obs, 'pre_vals': pre_vals, 'post_vals': post_vals, 'older_vals': older_vals}
 
 
@@ -517,7 +552,7 @@ def gen_tables(ctx: Ctx) -> None:
         init = ', '.join(f'({I(p)}, {lean_state(s)})' for p, s in sorted(st0.items(), key=lambda kv: I(kv[0])))
         tr = ',\n    '.join(lean_effect(e, I) for e in effs)
         lines.append(f'def {sc.lean_name} : Scenario :=')
-        lines.append(f'  {{ name := "{sc.name}", cmd := .{sc.cmd},')
+        lines.append(f'  {{ name := "{sc.name}", cmd := .{sc.cmd}, machineFile := {"true" if sc.mf else "false"},')
         lines.append(f'    init := [{init}],')
         lines.append(f'    trace := [\n    {tr}] }}')
         lines.append('')
@@ -546,7 +581,7 @@ def crash_point(slot: Slot, sc: Scn, k: int, mode: str) -> dict:
     slot.restore(sc.hist, sc.backend)
     if os.path.exists(slot.log):
         os.unlink(slot.log)
-    argv = meson_argv(sc.cmd, CMD_ARGS[sc.cmd], slot.bd, sc.backend)
+    argv = meson_argv(sc.cmd, sc.args, slot.bd, sc.backend)
     rc, out = run_proc(argv, meson_env(slot.tmp, slot.bd, slot.log, k, 'torn' if mode == 't' else 'before'))
     prefix = parse_log(slot.log)
     obs = observe(slot.bd)
@@ -613,6 +648,8 @@ def culprit(obs: T.Dict[str, str]) -> str:
         return 'coredata.dat:torn'
     if cl == 'a' and cd == 'a':
         return 'cmd_line.txt:absent'
+    if cd == 'a':
+        return 'coredata.dat:absent'
     return 'other'
 
 
@@ -659,11 +696,11 @@ def model_lines(rec: dict, r: dict, I: Interner, st0: T.Dict[str, str]) -> T.Tup
     kk = len(ceffs)
     if len(prefix) > k:
         ceffs = ceffs + [(prefix[k][0], prefix[k][1], prefix[k][2] if prefix[k][0] != 'write' else '')]
-    a = f'crash {sc.cmd}|{enc_init(st0, I)}|{enc_effects(ceffs, I)}|{kk}|{r["mode"]}'
+    a = f'crash {sc.cmd}|{enc_init(st0, I)}|{enc_effects(ceffs, I)}|{kk}|{r["mode"]}|{int(sc.mf)}'
     ost = {}
     for rel, o in r['obs'].items():
         ost[rel] = o if o in ('a', 'd', 't') else obs_gen(rec, rel, o)
-    b = f'crash {sc.cmd}|{enc_init({p: s for p, s in ost.items() if s != "a"}, I)}||0|b'
+    b = f'crash {sc.cmd}|{enc_init({p: s for p, s in ost.items() if s != "a"}, I)}||0|b|{int(sc.mf)}'
     return a, b
 
 
@@ -709,6 +746,11 @@ def expected_values(rec: dict, verdict: str) -> T.Optional[T.Dict[str, T.Any]]:
     if verdict == 'usable:fresh':
         return rec['post_vals'] if sc.cmd == 'setup' else _FRESH['vals']
     g = verdict.rsplit(':', 1)[1]
+    if verdict.startswith('usable:clo:') and sc.mf:
+        # -D options of cmd_line.txt re-applied, machine files listed in [properties] not re-read
+        if sc.cmd == 'setup':
+            return rec['post_vals']       # the recovery command line names the machine file again
+        return rec.get('nomf_vals') if g == '1' else None
     return {'0': rec['older_vals'], '1': rec['pre_vals'], '2': rec['post_vals']}.get(g)
 
 
@@ -789,7 +831,7 @@ def model_bad_points(ctx: Ctx, rec: dict) -> T.List[T.Tuple[int, str]]:
         return []
     sc: Scn = rec['scn']
     I, st0, effs, start = scenario_model_inputs(rec)
-    ans = ctx.driver('crash', [f'scan {sc.cmd}|{enc_init(st0, I)}|{enc_effects(effs, I)}'])[0]
+    ans = ctx.driver('crash', [f'scan {sc.cmd}|{enc_init(st0, I)}|{enc_effects(effs, I)}|{int(sc.mf)}'])[0]
     parts = ans.split('|')
     out = []
     n = len(rec['raw'])
